@@ -72,3 +72,45 @@ package coreutils
 //@ extern (types.Currency).Sub pure
 //@   ensures cval(c) >= cval(v) ==> cval(result) == cval(c) - cval(v)
 //@ extern (types.Currency).String pure
+//
+// ---------------------------------------------------------------------------
+// C05: MineBlock assembles its block from the pool as reported: the v1 transactions of the block
+// are a prefix of PoolTransactions, the v2 transactions (after the marker transaction that makes
+// the block id unique) a prefix of V2PoolTransactions, in pool order and with nothing skipped, on
+// top of the tip state the pool was read against. (A prefix of the pool is valid by the pool's own
+// guarantee; a subsequence with gaps is not.) Not covered: the weight limit (the marker's weight
+// is not counted -- candidate K9) and the payout arithmetic.
+//@ extern types.CurrentTimestamp pure
+//@ extern (consensus.State).BlockReward pure
+//@ extern (consensus.State).Commitment pure
+//@ extern (consensus.State).NonceFactor pure
+//@ extern (consensus.State).PoWTarget pure
+//@ extern (types.BlockID).CmpWork pure
+//@ extern (*types.Transaction).TotalFees pure
+//@ extern frand.Bytes
+//@   assigns nothing
+//@ extern time.Since pure
+//
+//@ func FindBlockNonce props C05
+//@   nopanic
+//@   assigns pointee:b
+//@   requires b != nil
+//@   ensures [only-nonce] b.ParentID == old(b.ParentID) && b.Timestamp == old(b.Timestamp) && b.MinerPayouts == old(b.MinerPayouts) && b.Transactions == old(b.Transactions) && b.V2 == old(b.V2)
+//
+//@ func MineBlock props C05
+//@   nopanic
+//@   requires cm != nil
+//@   loop "range txns"
+//@     invariant [frame] frameRows(b.Transactions)
+//@     invariant [v2] b.V2 == loopentry(b.V2) && b.ParentID == loopentry(b.ParentID) && len(b.MinerPayouts) == 1 && b.MinerPayouts == loopentry(b.MinerPayouts)
+//@     invariant [count] len(b.Transactions) == rangeindex + 1
+//@     invariant [prefix] forall k int :: { b.Transactions[k] } 0 <= k && k < len(b.Transactions) ==> b.Transactions[k] == txns[k]
+//@   loop "range v2Txns"
+//@     invariant [frame] b.V2 != nil && b.V2 == loopentry(b.V2) && b.ParentID == loopentry(b.ParentID) && b.Transactions == loopentry(b.Transactions) && len(b.MinerPayouts) == 1 && b.MinerPayouts == loopentry(b.MinerPayouts)
+//@     invariant [rows] frameRows(b.V2.Transactions)
+//@     invariant [count] len(b.V2.Transactions) == rangeindex + 2
+//@     invariant [prefix] forall k int :: { b.V2.Transactions[k] } 1 <= k && k < len(b.V2.Transactions) ==> b.V2.Transactions[k] == v2Txns[k-1]
+//@   ensures [parent] result0.ParentID == callres("TipState").Index.ID
+//@   ensures [same-tip] callres("Tip") == callres("TipState").Index
+//@   ensures [prefix-v1] called("PoolTransactions") && len(result0.Transactions) <= len(callres("PoolTransactions")) && (forall k int :: { result0.Transactions[k] } 0 <= k && k < len(result0.Transactions) ==> result0.Transactions[k] == callres("PoolTransactions")[k])
+//@   ensures [prefix-v2] called("V2PoolTransactions") && (result0.V2 != nil ==> len(result0.V2.Transactions) >= 1 && len(result0.V2.Transactions) - 1 <= len(callres("V2PoolTransactions")) && (forall k int :: { result0.V2.Transactions[k] } 1 <= k && k < len(result0.V2.Transactions) ==> result0.V2.Transactions[k] == callres("V2PoolTransactions")[k-1]))
